@@ -487,6 +487,9 @@ func init() {
 		if g != nil {
 			ga := NewGA(prog, g.Tab)
 			checkOperatorSpellings(r, ga, "c04")
+			r.importing = "C16"
+			checkKeywordBoundary(r, ga, "c16") // an operand that begins like a keyword (`notes`, `inbox`) is still the operand on both sides of the pair
+			r.importing = ""
 			r.importing = "C15"
 			checkActionsDoNotRewrite(r, prog, "c15") // both spellings of a pair hand the same literal and selector to the same node
 			r.importing = ""
